@@ -1110,6 +1110,8 @@ def has_eqne(ast):
         return ast[1] in ("==", "!=") or has_eqne(ast[2]) or has_eqne(ast[3])
     if ast[0] in ("un", "bi"):
         return has_eqne(ast[2])
+    if ast[0] == "idx":
+        return has_eqne(ast[1])
     if ast[0] == "call":
         return any(has_eqne(a) for a in ast[2]) or any(has_eqne(a) for _, a in ast[3])
     return False
